@@ -4157,3 +4157,69 @@ def syn7(ctx):
             r.report("SYN-7|%s|after-colon" % short, fn_loc(b), path,
                      "the number after the colon is read without skipping whitespace first: `[tone: 35]` is rejected while `[tone:35]` is read")
     return r
+
+
+# ---------------------------------------------------------------- ERR-8: a word error shows the text its column was counted in
+
+def err8(ctx):
+    """A WordSyntaxError carries the word's text and a character index into it; the formatter prints the text and puts
+    the caret at the index. The reader scans `txt`, the characters of ONE string; the text stored in every error is that
+    same string (in Word::setup and, through its parameters, in Word::fill_segments), not an earlier form of the word
+    (as typed, before `;` became `ː.` and `¢` became `t͡s`) whose columns differ."""
+    r = RuleResult("ERR-8", "Word::setup / fill_segments: the text stored in every WordSyntaxError is the string whose characters are being scanned (the index counts columns of that string)", floor=8)
+    lib = ctx.lib
+    add = {"chars", "as_str", "to_string"} - set(_SRC_PASS)
+    for a_ in add:
+        _SRC_PASS.add(a_)
+    try:
+        n = 0
+        b = ctx.fn(lib, "asca::word::Word::setup")
+        root = b.hir["body"]
+        binds = Bindings(root, b.hir.get("params"))
+        scanned = None
+        for x in hirq.walk(root):
+            if x["e"] == "let" and x.get("init") is not None and x["pat"].get("p") == "bind" and "Vec<char>" in (x["pat"].get("ty") or ""):
+                ss = _value_sources(x["init"], binds)
+                if len(ss) == 1 and list(ss)[0][0] == "param":
+                    scanned = list(ss)[0]
+        if scanned is None:
+            raise AnchorMissing("ERR-8: Word::setup: the scanned character vector is not collected from one parameter")
+
+        def check(fnb, fbinds, want, what):
+            nonlocal n
+            for y in hirq.walk(fnb.hir["body"]):
+                if y["e"] == "call" and "WordSyntaxError::" in (hirq.strip(y["f"]).get("path") or "") and y["args"]:
+                    a0 = hirq.strip(y["args"][0])
+                    if "String" not in (a0.get("ty") or "String"):
+                        continue
+                    n += 1
+                    ss = _value_sources(y["args"][0], fbinds)
+                    ok = ss == {want}
+                    var = (hirq.strip(y["f"]).get("path") or "").rsplit("::", 1)[-1]
+                    r.inst("%s: %s carries %s" % (fnb.path.rsplit("::", 1)[-1], var, what), fn_loc(fnb, y.get("ln")), "ok" if ok else "report")
+                    if not ok:
+                        r.report("ERR-8|%s|%s" % (fnb.path.rsplit("::", 1)[-1], var), fn_loc(fnb, y.get("ln")), fnb.path,
+                                 "the text stored in WordSyntaxError::%s is not the string being scanned (it comes from %s): the index counts columns of the scanned text, so for a word containing `;` or `¢ ƛ λ` (expanded before scanning) the caret is drawn past the culprit, possibly past the end of the word shown"
+                                 % (var, ", ".join(sorted("%s %s" % s_ for s_ in ss)) or "nothing traceable"))
+        check(b, binds, scanned, "the scanned text `%s`" % scanned[1])
+        # the hand-over to fill_segments: (text, its characters)
+        fs = ctx.fn(lib, "asca::word::Word::fill_segments")
+        for y in hirq.walk(root):
+            if y["e"] == "mcall" and (y.get("def") or "") == fs.path and len(y["args"]) >= 2:
+                n += 1
+                s0, s1 = _value_sources(y["args"][0], binds), _value_sources(y["args"][1], binds)
+                ok = s0 == {scanned} and s1 == {scanned}
+                r.inst("setup: fill_segments is handed the scanned text and its own characters", fn_loc(b, y.get("ln")), "ok" if ok else "report")
+                if not ok:
+                    r.report("ERR-8|setup|fill_segments-args", fn_loc(b, y.get("ln")), b.path,
+                             "fill_segments is given a text and a character vector that do not come from the same string: the error it builds shows one and counts columns in the other")
+        pn = fs.param_names or []
+        if len(pn) < 2:
+            raise AnchorMissing("ERR-8: fill_segments has no text parameter")
+        check(fs, Bindings(fs.hir["body"], fs.hir.get("params")), ("param", pn[1]), "its text parameter `%s`" % pn[1])
+        if n < 8:
+            raise AnchorMissing("ERR-8: %d WordSyntaxError constructions examined (expected >= 8)" % n)
+    finally:
+        for a_ in add:
+            _SRC_PASS.discard(a_)
+    return r
